@@ -8,6 +8,7 @@ CONSTANTS
   UseSnap = TRUE
   UseDup = FALSE
   DumpReset = TRUE
+  ScriptName = "none"
   Reps <- MCReps
   Actors <- MCActors
   Vals <- MCVals
